@@ -4,7 +4,7 @@ compiling is reported with rustc's own diagnostic."""
 import os, shutil, subprocess, hashlib
 from . import facts
 
-WDIR = os.path.join(facts.VERIF, ".cache", "witness")
+WDIR = os.path.join(facts.VERIF, ".cache", "witness" + facts.TSUFFIX)
 
 
 def _write_crate(name, src, extra_files=None):
@@ -28,7 +28,7 @@ def _write_crate(name, src, extra_files=None):
 def typecheck(name, src):
     """cargo check the generated crate. Returns (ok, stderr)."""
     d = _write_crate(name, src)
-    env = dict(os.environ, CARGO_NET_OFFLINE="true", CARGO_TARGET_DIR=os.path.join(facts.TARGET, "witness"),
+    env = dict(os.environ, CARGO_NET_OFFLINE="true", CARGO_TARGET_DIR=os.path.join(facts.TARGET, "witness" + facts.TSUFFIX),
                RUSTFLAGS="-Awarnings")
     env.pop("RUSTC_WORKSPACE_WRAPPER", None)
     r = subprocess.run(["cargo", "+nightly", "check", "--offline", "--lib"], cwd=d, env=env,
